@@ -12,7 +12,7 @@ class C05(HistCheck):
     RULE = ("GDE3 / GDE3MNN / GDE32NN / GDE3P driven by ask-and-tell for 4 generations on random bounded problems whose objectives and violations are rounded "
             "(ties in every objective, equal CV), 0..2 constraints, both survivals; the candidate list handed to the survival is recorded (class-level wrapper) and "
             "compared with the model slot by slot, then the truncation with recorded oracle answers; non-trivial = run of >= 2 generations; distinct by hash"
-            "; 30% of NSDE/GDE3 cases use the algorithm's default survival object, 30% of all cases run after a default-constructed algorithm of the same class was stepped on another (constrained <-> unconstrained) problem in the same process; one case in four or five is a multi-feature scenario taken in turn and run in a process of its own (the algorithm's default survival object after a run on an unconstrained problem, now on a problem with 20-80% feasible points; constraint-ranking or default survival with a small feasible region reached one member at a time; single-objective DE with a minimal population on a coarse plateau, 8 generations; constraint-ranking survival with two constraints and at most 30% feasible points; the dither range as one shared float array)")
+            "; 30% of NSDE/GDE3 cases use the algorithm's default survival object, 30% of all cases run after a default-constructed algorithm of the same class was stepped on another (constrained <-> unconstrained) problem in the same process; one case in four or five is a multi-feature scenario taken in turn and run in a process of its own (the algorithm's default survival object after a run on an unconstrained problem, now on a problem with 20-80% feasible points; constraint-ranking or default survival with a small feasible region reached one member at a time; single-objective DE with a minimal population on a coarse plateau, 8 generations; constraint-ranking survival with two constraints and at most 30% feasible points; the dither range as one shared float array; an objective that is +inf on part of the box (cd / ce); advance_after_initial_infill=False); 15% of the two-objective cd / ce cases have such an infinite region and 12% of the DE cases that flag")
     ASSUMPTIONS = ["pymoo get_relation is modelled (CV first, then the objective loop with early exit) and proved equal to constraint domination",
                    "survival oracles as in C03"]
 
